@@ -394,7 +394,12 @@ def extra_state_kind(M, rec, rng, st):
     org = rng.choice((M.MeteredOnRamp(2000.0, name="O1"), M.MainstreamOrigin(name="O1"), UK.MeasuredSpeedOrigin(name="O1"), UK.MeasuredSpeedOrigin(name="O1")))
     if isinstance(org, UK.MeasuredSpeedOrigin):
         rec.count("extra_state_kind_with_a_name_shared_across_variable_kinds")
-    net = M.Network().add_path((n1, l1, n2, l2, n3), origin=org, destination=M.Destination(name="D1"))
+    # (now and then the destination is a user kind that owns an ACTION: actions are listed in element order - links,
+    # origins, destinations - like everything else)
+    dest_ = UK.GatedDestination(name="D1") if rng.random() < 0.4 else M.Destination(name="D1")
+    if isinstance(dest_, UK.GatedDestination):
+        rec.count("extra_state_kind_with_a_destination_that_owns_an_action")
+    net = M.Network().add_path((n1, l1, n2, l2, n3), origin=org, destination=dest_)
     eng = CE(st)
     pars = dict(T=10 / 3600, tau=18 / 3600, eta=60.0, kappa=40.0)
     try:
